@@ -20,6 +20,8 @@ ID = "C17"
 LEVEL = "exploration"
 TECHNIQUE = ('deterministic simulation with corruption faults in forked children: random / mutated / structure-aware hostile byte strings, outcome + raw-read cap + peak-RSS accounting per input, watchdog')
 LEVEL_NOTE = ('seeded sampling of byte strings; resident (not virtual) memory judged; hang = no result in 20 s confirmed twice')
+OPTIMIZED_EVERY = 25      # every 25th run is executed in a child interpreter started with python -O
+COMPILED_EVERY = 25       # every 25th run (offset 12) is executed in a child that imports a mypyc build of the tree
 RUNS = {"quick": 800, "thorough": 30000}
 CHUNK = 10
 BATCH = 40
